@@ -80,9 +80,9 @@ func shortPkg(path string) string {
 // accepted self-redispatch shapes (condition -> call), from the property statement:
 // nil big number / big decimal -> null; NaN float / decimal float / big decimal -> NaN of the same kind.
 var c15Redispatch = map[string]string{
-	"P0==nil":                        "R.OnNull()",
-	"math.IsNaN(P0)":                 "R.OnNan(!internal/common.HasQuietNanBitSet64(P0))",
-	"P0.IsNan()":                     "R.OnNan(P0.IsSignalingNan())",
+	"P0==nil":        "R.OnNull()",
+	"math.IsNaN(P0)": "R.OnNan(!internal/common.HasQuietNanBitSet64(P0))",
+	"P0.IsNan()":     "R.OnNan(P0.IsSignalingNan())",
 	"P0.Form==github.com/cockroachdb/apd/v2.NaNSignaling": "R.OnNan(true)",
 	"P0.Form==github.com/cockroachdb/apd/v2.NaN":          "R.OnNan(false)",
 }
@@ -495,6 +495,7 @@ func checkC15Method(r *core.Run, a *analysis, info *types.Info, f *fn, recvField
 //     (tagless switches likewise; a default clause of a switch in last position becomes the tail);
 //   - a final `if c { A } else { B }`  ->  `if c { A; return }; B`;
 //   - `if !c { A; return }; B` (B the rest of the method)  ->  `if c { B; return }; A`.
+//
 // Every rewrite preserves the set of paths and the statements executed on each.
 func c15Desugar(list []ast.Stmt) []ast.Stmt {
 	endsInReturn := func(b []ast.Stmt) bool {
